@@ -276,6 +276,49 @@ class ListSink(list):
 SERIALISE = {"n": 0, "sink-differs": []}
 
 
+def read_through_getters(result):
+    """Call the read-only public getters of every command of a tree (args_as_tuple, get_type,
+    iscomplete, has_arguments, dump into a sink), as a caller inspecting the tree would before
+    printing it.  Returns how many getter calls were made; what they return is not judged."""
+    import contextlib
+    n = 0
+    seen = set()
+
+    def node(c):
+        nonlocal n
+        if id(c) in seen:
+            return
+        seen.add(id(c))
+        for name in ("args_as_tuple", "get_type", "iscomplete", "has_arguments"):
+            fn = getattr(c, name, None)
+            if callable(fn):
+                try:
+                    fn()
+                except Exception:
+                    pass
+                n += 1
+        fn = getattr(c, "dump", None)
+        if callable(fn):
+            try:
+                with contextlib.redirect_stdout(io.StringIO()):
+                    fn()
+            except Exception:
+                pass
+            n += 1
+        for v in list(getattr(c, "arguments", {}).values()):
+            if isinstance(v, sl_commands.Command):
+                node(v)
+            elif isinstance(v, list):
+                for x in v:
+                    if isinstance(x, sl_commands.Command):
+                        node(x)
+        for ch in getattr(c, "children", []) or []:
+            node(ch)
+    for c in result:
+        node(c)
+    return n
+
+
 def serialise(result):
     """tosieve() of every top-level command into one string.  Every 4th call collects the
     output a second time in a chunk list (ListSink) with stdout captured; both must agree."""
